@@ -477,8 +477,8 @@ Fixpoint eval (fuel : nat) (rho : env) (e : expr) {struct fuel} : res value :=
               | Some (n, _) =>
                   if name_eqb n n_char && negb (forallb (fun t => valid_char (snd t)) ms) then Err
                   else if name_eqb n n_byte && negb (forallb (fun t => valid_byte (snd t)) ms) then Err
-                  else Ok (D (mkset (map (fun t => vpair (snd (fst t)) (fst (fst t)) (snd t)) ms)))
-              | None => Ok (D (mkset (map (fun t => vpair (snd (fst t)) (fst (fst t)) (snd t)) ms)))
+                  else Ok (D (mkset (map (fun t => build_tuple [(n_at, fst (fst t)); (snd (fst t), snd t)]) ms)))
+              | None => Ok (D (mkset (map (fun t => build_tuple [(n_at, fst (fst t)); (snd (fst t), snd t)]) ms)))
               end
             end
         | _ => Err
